@@ -63,6 +63,16 @@ fn c06_limits() {
     } else {
         cover("rejected");
     }
+    // the same entry arriving inside a whole replica (verified_merge) instead of through add_op
+    {
+        let mut recv = base(1, Permissions::new_anyone_can_write(), 7);
+        let carrier = SignedRegister::new(recv.base_register().clone(), recv.signature.clone(), [opx.clone()].into_iter().collect());
+        let merged = recv.verified_merge(&carrier).is_ok() && recv.ops().contains(&opx);
+        if merged {
+            cover("merged_entry");
+            check("limits:entry_merged_from_a_replica_within_size_limit", size.sle(SymU::konst(MAX_REG_ENTRY_SIZE as u64)).0);
+        }
+    }
     // two replicas, each valid, each with one more entry: the merge result must be valid for others too
     let mut b1 = base(1, Permissions::new_anyone_can_write(), 7);
     let mut b2 = base(1, Permissions::new_anyone_can_write(), 7);
